@@ -1,3 +1,4 @@
+/* gcc -D__PTHREAD -DAdd_ -I/repo/SRC native_repro.c /repo/SRC/dgsequ.c /repo/SRC/dlamch.c /repo/SRC/xerbla.c /repo/SRC/lsame.c -lm */
 #include <stdio.h>
 #include "slu_mt_ddefs.h"
 int main(void){
